@@ -38,34 +38,22 @@ Proof. rewrite sorted_keys_perm. apply NoDup_fst_map_to_list. Qed.
 Definition flags (s : tstate) : Prop :=
   (s_safe s && s_unsafe s = false) /\ (s_cancel s = true -> s_unsafe s = true).
 
-Definition tkey (e : event) : option Z :=
-  match tev e with Some (_, t, _) => Some t | None => None end.
-Definition tkeys (evs : list event) : list Z := omap tkey evs.
-
-Lemma tkeys_app evs1 evs2 : tkeys (evs1 ++ evs2) = tkeys evs1 ++ tkeys evs2.
-Proof. apply omap_app. Qed.
-
-Lemma tkeys_elem evs t : t ∈ tkeys evs <-> exists s, tev_in evs t s.
-Proof.
-  unfold tkeys. rewrite elem_of_list_omap. split.
-  - intros (e & He & Hk). destruct e as [t' s|t' s|h b]; cbn in Hk; inversion Hk; subst;
-      exists s; [left|right]; exact He.
-  - intros (s & [H|H]); eexists; (split; [exact H|reflexivity]).
-Qed.
-
 (* PB: the blocks a proof may newly refer to in this step *)
 Definition proof_ok (PB : Z -> Prop) (po : option Z) (s : tstate) : Prop :=
   s_proof s = po \/ exists b, s_proof s = Some b /\ PB b.
 
+Definition oproof (os : option tstate) : option Z :=
+  match os with Some so => s_proof so | None => None end.
+
 Definition trans (PB : Z -> Prop) (so s : tstate) : Prop :=
   (s_unsafe so = true -> s_unsafe s = true) /\ (s_cancel so = true -> s_cancel s = true) /\
-  (flags so -> flags s) /\ proof_ok PB (s_proof so) s.
+  (flags so -> flags s) /\ proof_ok PB (s_proof so) s /\ s_outs s = s_outs so.
 
 Record Ext (PB : Z -> Prop) (S0 S : gmap Z tstate) (evs : list event) : Prop := mkExt {
   x_nodup : NoDup (tkeys evs);
   x_in : forall t s, tev_in evs t s -> S !! t = Some s;
   x_out : forall t, t ∉ tkeys evs -> S !! t = S0 !! t;
-  x_new : forall t s, ETx t s ∈ evs -> S0 !! t = None /\ flags s /\ proof_ok PB None s;
+  x_new : forall t s, ETx t s ∈ evs -> proof_ok PB (oproof (S0 !! t)) s;
   x_upd : forall t s, EUpdate t s ∈ evs -> exists so, S0 !! t = Some so /\ trans PB so s }.
 
 Lemma Ext_nil PB S0 : Ext PB S0 S0 [].
@@ -90,7 +78,7 @@ Qed.
 
 Lemma Ext_add PB S0 S evs e nw t s :
   Ext PB S0 S evs -> tev e = Some (nw, t, s) -> t ∉ tkeys evs ->
-  (nw = true -> S !! t = None /\ flags s /\ proof_ok PB None s) ->
+  (nw = true -> proof_ok PB (oproof (S !! t)) s) ->
   (nw = false -> exists so, S !! t = Some so /\ trans PB so s) ->
   Ext PB S0 (<[t := s]> S) (evs ++ [e]).
 Proof.
@@ -125,10 +113,10 @@ Proof.
 Qed.
 
 Lemma Ext_new PB S0 S evs t s :
-  Ext PB S0 S evs -> t ∉ tkeys evs -> S !! t = None -> flags s -> proof_ok PB None s ->
+  Ext PB S0 S evs -> t ∉ tkeys evs -> proof_ok PB (oproof (S !! t)) s ->
   Ext PB S0 (<[t := s]> S) (evs ++ [ETx t s]).
 Proof.
-  intros HE Hnt Hs Hf Hp. eapply (Ext_add PB S0 S evs (ETx t s) true t s); eauto.
+  intros HE Hnt Hp. eapply (Ext_add PB S0 S evs (ETx t s) true t s); eauto.
   discriminate.
 Qed.
 
@@ -560,7 +548,7 @@ Definition ptx (x : pentry) : Z := fst (fst (fst x)).
 
 Lemma block_notify_spec (PB : Z -> Prop) S0 b : PB b -> forall pending, NoDup (map ptx pending) -> forall n acc,
   (forall t body nw sf, (t, body, nw, sf) ∈ pending ->
-     t ∉ tkeys acc /\ (if nw : bool then states n !! t = None else is_Some (states n !! t))) ->
+     t ∉ tkeys acc /\ (if nw : bool then True else is_Some (states n !! t))) ->
   Ext PB S0 (states n) acc ->
   exists n' evs,
     block_notify n b pending acc = Some (n', acc ++ evs) /\
@@ -568,7 +556,9 @@ Lemma block_notify_spec (PB : Z -> Prop) S0 b : PB b -> forall pending, NoDup (m
     Ext PB S0 (states n') (acc ++ evs) /\
     (forall x s, tev_in evs x s ->
        exists body nw sf, (x, body, nw, sf) ∈ pending /\ s_proof s = Some b /\ s_depth s = 0 /\
-         (if nw : bool then ETx x s ∈ evs /\ outs_ok body (s_outs s) = true else EUpdate x s ∈ evs)) /\
+         (if nw : bool then ETx x s ∈ evs /\ outs_ok body (s_outs s) = true /\
+                            s_unsafe s = negb (s_safe s) /\ s_cancel s = false
+          else EUpdate x s ∈ evs)) /\
     (forall t body nw sf, (t, body, nw, sf) ∈ pending ->
        exists s, s_proof s = Some b /\ s_depth s = 0 /\
                  (if nw : bool then ETx t s ∈ evs else EUpdate t s ∈ evs)).
@@ -585,7 +575,8 @@ Proof.
       exists (t, body', nw', sf'). split; [reflexivity|exact Hin]. }
     (* the state written and the event emitted for t *)
     assert (Step : exists s1 e, tev e = Some (nw, t, s1) /\ s_proof s1 = Some b /\ s_depth s1 = 0 /\
-              (if nw then e = ETx t s1 /\ outs_ok body (s_outs s1) = true else e = EUpdate t s1) /\
+              (if nw then e = ETx t s1 /\ outs_ok body (s_outs s1) = true /\
+                          s_unsafe s1 = negb (s_safe s1) /\ s_cancel s1 = false else e = EUpdate t s1) /\
               Ext PB S0 (<[t:=s1]> (states n)) (acc ++ [e]) /\
               block_notify n b ((t, body, nw, sf) :: pending) acc =
               block_notify (set_states n (<[t:=s1]> (states n))) b pending (acc ++ [e])).
@@ -593,22 +584,22 @@ Proof.
       - exists (TState sf (negb sf) false 0 (Some b) (spent_outputs n body)).
         exists (ETx t (TState sf (negb sf) false 0 (Some b) (spent_outputs n body))).
         split; [reflexivity|]. split; [reflexivity|]. split; [reflexivity|].
-        split; [split; [reflexivity|apply outs_ok_spent]|]. split; [|reflexivity].
-        apply Ext_new; [exact HE|exact Hfr|exact Hst| |].
-        + unfold flags. simpl. split; [destruct sf; reflexivity|discriminate].
-        + right. exists b. split; [reflexivity|exact HPB].
+        split; [split; [reflexivity|split; [apply outs_ok_spent|split; reflexivity]]|]. split; [|reflexivity].
+        apply Ext_new; [exact HE|exact Hfr|].
+        right. exists b. split; [reflexivity|exact HPB].
       - destruct Hst as (s & Hs).
         exists (TState (negb (s_unsafe s) && sf) (negb (negb (s_unsafe s) && sf)) (s_cancel s) 0 (Some b) (s_outs s)).
         exists (EUpdate t (TState (negb (s_unsafe s) && sf) (negb (negb (s_unsafe s) && sf)) (s_cancel s) 0 (Some b) (s_outs s))).
         split; [reflexivity|]. split; [reflexivity|]. split; [reflexivity|].
         split; [reflexivity|]. split; [|cbn [block_notify]; rewrite Hs; reflexivity].
         apply (Ext_upd PB S0 _ acc t s); [exact HE|exact Hfr|exact Hs|].
-        unfold trans, flags, proof_ok. simpl. split; [|split; [|split]].
+        unfold trans, flags, proof_ok. simpl. split; [|split; [|split; [|split]]].
         + intros ->. reflexivity.
         + auto.
         + intros [F1 F2]. split; [destruct (negb (s_unsafe s) && sf); reflexivity|].
           intros Hc. rewrite (F2 Hc). reflexivity.
-        + right. exists b. split; [reflexivity|exact HPB]. }
+        + right. exists b. split; [reflexivity|exact HPB].
+        + reflexivity. }
     destruct Step as (s1 & e & Hte & Hp1 & Hd1 & Hkind & HE1 & Heq).
     destruct (IH Hnd (set_states n (<[t:=s1]> (states n))) (acc ++ [e])) as
       (n' & evs & Hr & Hmp & Hun & Hmisc & HE' & Hev1 & Hev2).
@@ -632,7 +623,7 @@ Proof.
         -- subst e. left.
       * destruct (Hev1 x s H) as (body' & nw' & sf' & Hin & H1 & H2 & H3).
         exists body', nw', sf'. split; [right; exact Hin|]. split; [exact H1|]. split; [exact H2|].
-        destruct nw'; [destruct H3; split; [right|]; assumption | right; exact H3].
+        destruct nw'; [destruct H3 as [H3 H3']; split; [right; exact H3|exact H3'] | right; exact H3].
     + intros t' body' nw' sf' Hin. apply elem_of_cons in Hin. destruct Hin as [Heq'|Hin].
       * inversion Heq'. subst t' body' nw' sf'. exists s1. split; [exact Hp1|]. split; [exact Hd1|].
         destruct nw; [destruct Hkind as [-> _]|subst e]; left.
